@@ -1,5 +1,5 @@
 (* C16, json of numbers: the decimal text encoding/json writes for an int64 and
-   for a float64 of the exact printing domain (Model/Num.v fl_to_string) is read
+   for a float64 of the exact printing domain (Model/Num.v fl_to_string_dom) is read
    by the RFC 8259 number reader (Spec/Json.v json_number) as exactly the number
    the value denotes. *)
 From Coq Require Import Lia ZifyN ZifyNat ZifyBool.
@@ -263,20 +263,20 @@ Definition fl_norm (x : fl) : Prop := match x with FFin m _ => Z.odd m = true | 
 Lemma dec_of_Z_nonneg v : (0 <= v)%Z -> dec_of_Z v = dec_of_N (Z.to_N v).
 Proof. destruct v as [|p|p]; [reflexivity|reflexivity|lia]. Qed.
 
-Theorem json_number_float x s rest : fl_norm x -> fl_to_string x = Some s -> stop_num rest ->
+Theorem json_number_float x s rest : fl_norm x -> fl_to_string_dom x = Some s -> stop_num rest ->
   forall j, num_of_fl x = Some j -> json_number (s ++ rest) = Some (j, rest).
 Proof.
   intros Hnorm Hs Hstop j Hj.
   destruct x as [| |n|m e]; cbn [num_of_fl] in Hj; try discriminate.
   - (* zero *)
-    injection Hj as <-. cbn [fl_to_string] in Hs. destruct n; injection Hs as <-.
+    injection Hj as <-. cbn [fl_to_string_dom] in Hs. destruct n; injection Hs as <-.
     + pose proof (json_number_unsigned [48] [] rest true (or_introl eq_refl) ltac:(repeat constructor; unfold is_digit_byte; lia)
                     ltac:(constructor) Hstop [45] (or_intror (conj eq_refl eq_refl))) as H.
       cbn [app] in H. cbn [app]. rewrite H. reflexivity.
     + pose proof (json_number_unsigned [48] [] rest false (or_introl eq_refl) ltac:(repeat constructor; unfold is_digit_byte; lia)
                     ltac:(constructor) Hstop [] (or_introl (conj eq_refl eq_refl))) as H.
       cbn [app] in H. cbn [app]. rewrite H. reflexivity.
-  - cbn [fl_norm] in Hnorm. cbn [fl_to_string] in Hs. cbv zeta in Hs.
+  - cbn [fl_norm] in Hnorm. cbn [fl_to_string_dom] in Hs. cbv zeta in Hs.
     assert (m <> 0)%Z as Hm0 by (intros ->; discriminate).
     set (a := Z.abs m) in *. assert (0 < a)%Z as Ha by lia.
     assert (Z.abs_N m = Z.to_N a) as Eabs by lia. rewrite Eabs in Hj.
